@@ -286,6 +286,9 @@ func cmdCheck(args []string) int {
 			sm.name = tags + ":" + sm.name
 		}
 		smokes = append(smokes, rr.smokes...)
+		if tags == tsets[0] {
+			smokes = append(smokes, p.axiomSmokes()...)
+		}
 		funcs = append(funcs, rr.funcs...)
 		for _, e := range rr.errs {
 			genErrs = append(genErrs, "["+tags+"] "+e)
@@ -387,7 +390,21 @@ func cmdCheck(args []string) int {
 		}
 	}
 	if len(genErrs) > 0 {
-		decideByReplay("generator-errors", strings.Join(genErrs, "\n"))
+		vacuous := false
+		for _, e := range genErrs {
+			if strings.HasPrefix(e, "vacuous hypotheses") {
+				vacuous = true
+			}
+		}
+		if vacuous {
+			// contradictory hypotheses make every proof on that path worthless: fail closed
+			path := writeReplay(*property, "vacuity", strings.Join(genErrs, "\n"), nil)
+			fmt.Printf("VIOLATION property=%s replay=%s obligation=vacuity no-failing-input-found\n", *property, path)
+			violations++
+			exit = 1
+		} else {
+			decideByReplay("generator-errors", strings.Join(genErrs, "\n"))
+		}
 	}
 	seenSite := map[string]bool{}
 	for _, ob := range failed {
